@@ -20,7 +20,7 @@ RULE = ('Cases: initial PVA (|lat|<=85, any attitude), altitude mode, Integrator
         '{1,2,3,4,8}, an increments table of up to 48 rows (irregular dt, |theta|<=0.5 rad, |dv|<=5 m/s, '
         'zero rows included) and a generated list of up to 30 operations: integrate(k rows) with k from '
         '{0, 1, up-to-capacity-1, exactly-to-capacity, capacity+1, random}, predict(next row | scaled next '
-        'row), get_pva, get_time, set_pva(generated state | the current state itself | a position/velocity-only change of it; named or unnamed). Model = fresh '
+        'row), get_pva, get_time (the caller may overwrite any returned object in place afterwards), set_pva(generated state | the current state itself | a position/velocity-only change of it; named or unnamed). Model = fresh '
         'single-shot integrator per segment; bitwise comparison of values, index and return values after '
         'every operation. Non-trivial = history with a chunk straddling a buffer-growth boundary, or '
         'predict followed by integrate of the same row, or set_pva followed by integration, or an empty '
@@ -35,10 +35,11 @@ N_ROWS = 48
 def op_strategy():
     integ = st.fixed_dictionaries({'op': st.just('integrate'),
                                    'kind': st.sampled_from(['zero', 'one', 'cap-1', 'cap', 'cap+1', 'cap+1', 'rand', 'rand']),
-                                   'k': st.integers(0, 12)})
+                                   'k': st.integers(0, 12), 'scribble': st.sampled_from([False, False, True])})
     pred = st.fixed_dictionaries({'op': st.just('predict'),
-                                  'scale': st.sampled_from([1.0, 1.0, 0.5, 0.25, 0.0, 0.999])})
-    return st.one_of(integ, integ, integ, pred, pred, st.just({'op': 'get_pva'}), st.just({'op': 'get_time'}),
+                                  'scale': st.sampled_from([1.0, 1.0, 0.5, 0.25, 0.0, 0.999]),
+                                  'scribble': st.sampled_from([False, False, True])})
+    return st.one_of(integ, integ, integ, pred, pred, st.fixed_dictionaries({'op': st.just('get_pva'), 'scribble': st.booleans()}), st.just({'op': 'get_time'}),
                      st.fixed_dictionaries({'op': st.just('set_pva'), 'pva': gen.pva_strategy(),
                                             'permute': st.booleans(),
                                             'source': st.sampled_from(['generated', 'generated', 'current', 'current_posvel'])}))
@@ -130,6 +131,7 @@ class Machine:
                     if 'after_set_pva' in self.flags:
                         self.flags.add('set_pva_then_integrate')
                 self.on_integrate(chunk, ret)
+                self.scribble(ret, op)
                 self.pos += k
                 self.last_pred_row = None
             elif name == 'predict':
@@ -147,12 +149,14 @@ class Machine:
                 ctx.check(row.equals(snap), 'input_modified:predict', 'increment changed')
                 self.check_unchanged(before, 'predict')
                 self.on_predict(row, ret)
+                self.scribble(ret, op)
                 self.flags.add('predict')
             elif name == 'get_pva':
                 before = self.snapshot()
                 ret = ctx.sut(self.integ.get_pva)
                 self.check_unchanged(before, 'get_pva')
                 self.on_get_pva(ret)
+                self.scribble(ret, op)
             elif name == 'get_time':
                 before = self.snapshot()
                 ret = ctx.sut(self.integ.get_time)
@@ -186,6 +190,21 @@ class Machine:
         for f in self.flags:
             ctx.label(f)
         ctx.label(f"cap={self.case['cap']}", 'mode=3D' if self.with_altitude else 'mode=2D')
+
+    def scribble(self, ret, op):
+        """The caller overwrites an object the integrator returned; nothing the integrator holds may change."""
+        if not op.get('scribble'):
+            return
+        before = self.snapshot()
+        try:
+            if isinstance(ret, pd.DataFrame):
+                ret.iloc[:, :] = -777.0
+            else:
+                ret[:] = -777.0
+        except (ValueError, TypeError):
+            return                       # read-only result: fine
+        self.check_unchanged(before, 'caller_writing_into_returned_object')
+        self.flags.add('scribbled_on_result')
 
     def snapshot(self):
         tr = self.integ.trajectory
